@@ -5,7 +5,6 @@ import (
 	"go/ast"
 	"go/token"
 	"go/types"
-	"sort"
 
 	"golang.org/x/tools/go/ssa"
 )
@@ -255,14 +254,15 @@ func (vc *VC) localAt(li *loopInfo, name string, over map[*ssa.Phi]*Val, heap *H
 			return vc.phiVal(phi, over)
 		}
 	}
-	// 1b. phi of an enclosing loop (the variable is not modified in this loop), innermost first
+	// 1b. phis of enclosing loops are candidates; the reaching definition is the candidate defined deepest in
+	// the dominator tree (see below)
 	var encl []*loopInfo
 	for _, lo := range vc.loops {
 		if lo != li && lo.blocks[li.head] {
 			encl = append(encl, lo)
 		}
 	}
-	sort.Slice(encl, func(i, j int) bool { return len(encl[i].blocks) < len(encl[j].blocks) })
+	var outerPhis []ssa.Value
 	for _, lo := range encl {
 		for _, ins := range lo.head.Instrs {
 			phi, ok := ins.(*ssa.Phi)
@@ -270,8 +270,8 @@ func (vc *VC) localAt(li *loopInfo, name string, over map[*ssa.Phi]*Val, heap *H
 				break
 			}
 			if phi.Comment == name {
-				if v, ok := vc.vals[phi]; ok {
-					return v
+				if _, ok := vc.vals[phi]; ok {
+					outerPhis = append(outerPhis, phi)
 				}
 			}
 		}
@@ -328,9 +328,27 @@ func (vc *VC) localAt(li *loopInfo, name string, over map[*ssa.Phi]*Val, heap *H
 				if best == nil || !li.blocks[bestBlock] {
 					best, bestBlock = x, b
 				}
-			} else if best == nil || (!li.blocks[bestBlock] && bestBlock.Dominates(b)) {
+			} else if best == nil || (!li.blocks[bestBlock] && (bestBlock.Dominates(b) || bestBlock == b)) {
 				best, bestBlock = x, b
 			}
+		}
+	}
+	// compare with enclosing-loop phis: the candidate defined deepest in the dominator tree is the reaching one
+	depth := func(v ssa.Value) int {
+		ins, ok := v.(ssa.Instruction)
+		if !ok {
+			return -1
+		}
+		d := 0
+		for b := ins.Block(); b != nil; b = b.Idom() {
+			d++
+		}
+		return d
+	}
+	for _, op := range outerPhis {
+		if best == nil || (!li.blocks[bestBlock] && depth(op) > depth(best)) {
+			best = op
+			bestBlock = op.(ssa.Instruction).Block()
 		}
 	}
 	if best != nil {
